@@ -175,6 +175,14 @@ def run(prog, tier):
                 if isinstance(st, ast.If) and any(x is if_stmt for x in ast.walk(ast.Module(body=st.orelse, type_ignores=[]))) \
                         and any(isinstance(b, ast.Break) for b in st.body):
                     shortcut = ("outer", st.test)
+            # the same thing without the else: an earlier `if <shortcut>: accept; break` in the block that holds the test
+            for blk in ast.walk(fn):
+                for name in ("body", "orelse"):
+                    stmts = getattr(blk, name, None)
+                    if isinstance(stmts, list) and any(x is if_stmt for x in stmts):
+                        for st in stmts[:[id(x) for x in stmts].index(id(if_stmt))]:
+                            if isinstance(st, ast.If) and not st.orelse and st.body and isinstance(st.body[-1], ast.Break):
+                                shortcut = ("outer", st.test)
         if shortcut is not None:
             t = shortcut[1]
             ok_s, why = False, f"shortcut `{U(t)}`"
@@ -325,12 +333,17 @@ def _proposals(prog):
     if len(draws) != 1 or draws[0].args or draws[0].keywords:
         problems.append(f"expected one standard-normal draw rng.normal(); found {[U(d) for d in draws]}")
     else:
-        st = [s for s in ast.walk(fn) if isinstance(s, ast.Assign) and any(x is draws[0] for x in ast.walk(s))][0]
+        # the proposed point is what is handed to process_proposal (else the statement holding the draw)
+        pp = [n for n in ast.walk(fn) if isinstance(n, ast.Call) and U(n.func) == "self.process_proposal" and n.args]
+        st = [s for s in ast.walk(fn) if isinstance(s, ast.Assign) and any(x is (pp[0] if pp else draws[0]) for x in ast.walk(s))][0]
+        target = pp[0].args[0] if pp else st.value
         ex = expander(prog, ci)
         env = {}
         guard(lambda: ex.run_until(fn.body, env, st))
-        v = guard(lambda: ex.eval(st.value, env))
-        cur = env.get("theta0")
+        v = guard(lambda: ex.eval(target, env))
+        # the current point: the local initialised from self.get_last()
+        cur_names = [U(s.targets[0]) for s in fn.body if isinstance(s, ast.Assign) and U(s.value) == "self.get_last()"]
+        cur = env.get(cur_names[0]) if len(cur_names) == 1 else None
         datoms = [a for a in v.atoms() if a[0] == "sym" and a[1].startswith("rng.normal")]
         if cur is None or len(datoms) != 1:
             problems.append("cannot identify the current point / the draw in the proposal expression")
